@@ -51,6 +51,57 @@ def _elems(r):
     return None
 
 
+def check_call_styles(project: Project, rep):
+    """PE-STYLE — the options mean the same whether they are passed by keyword or by position (the documented order): the
+    function is evaluated both ways — through whatever decorators and entry helpers it has — and the two values must be the
+    same expression in the data"""
+    fi = project.function(PE)
+    ps = fi.params
+    if len(ps) < 4:
+        rep.unmodelled("PE-STYLE", fi, fi.node, f"unexpected signature {ps}")
+        return
+    v = Sc(sym.Sym("vinf"))
+    configs = [("keep_inf=True, val_inf=v, normalize=True", [Sc(sym.TRUE), v, Sc(sym.TRUE)]),
+               ("keep_inf=False, val_inf=None, normalize=True", [Sc(sym.FALSE), NoneV(), Sc(sym.TRUE)])]
+    for label, vals in configs:
+        got = {}
+        for style in ("keyword", "positional"):
+            I = Interp(project, Config(nonempty={("rows", "X")}, finite_inputs=set()))
+            try:
+                if style == "keyword":
+                    r = I.call_function(fi, [dgm_input("X")], dict(zip(ps[1:4], vals)), None)
+                else:
+                    r = I.call_function(fi, [dgm_input("X")] + vals, {}, None)
+            except Exception as ex:
+                got[style] = ("error", f"{type(ex).__name__}: {ex}"[:100])
+                continue
+            if I.unmodelled or I.lossy:
+                got[style] = ("inexact", str(I.unmodelled[0]["tag"] if I.unmodelled else I.lossy[0]["why"])[:100])
+                continue
+            es = _elems(r) if isinstance(r, Arr) else ([r.e] if isinstance(r, Sc) and r.e is not None else None)
+            got[style] = ("ok", es) if es else ("inexact", f"value {r!r}"[:80])
+        a, b = got.get("keyword"), got.get("positional")
+        if a and b and a[0] == b[0] == "ok":
+            same = len(a[1]) == len(b[1]) and all(
+                sym.equal(x, y) or symeval.equivalent(x, y, positive_syms={"vinf"}, trials=8)[0] is True for x, y in zip(a[1], b[1]))
+            differs = len(a[1]) != len(b[1]) or any(
+                not sym.equal(x, y) and symeval.equivalent(x, y, positive_syms={"vinf"}, trials=8)[0] is False for x, y in zip(a[1], b[1]))
+            if same:
+                rep.discharged("PE-STYLE", fi, fi.node, f"{label}: the same value by keyword and by position")
+            elif differs:
+                rep.refuted("PE-STYLE", fi, fi.node,
+                            f"{label}: passed by position the options give {sym.show(b[1][0])[:90]}, passed by keyword "
+                            f"{sym.show(a[1][0])[:90]}: options given by position are not honoured",
+                            construct=f"{PE}: options by position")
+            else:
+                rep.unmodelled("PE-STYLE", fi, fi.node, f"{label}: the two values could not be compared")
+        elif b and b[0] == "error" and a and a[0] == "ok":
+            rep.discharged("PE-STYLE", fi, fi.node, f"{label}: the positional spelling is not accepted ({b[1]})", nontrivial=False)
+        else:
+            rep.unmodelled("PE-STYLE", fi, fi.node, f"{label}: keyword {a[0] if a else '?'} / positional {b[0] if b else '?'}: "
+                                                    f"{(a if a and a[0] != 'ok' else b)[1] if (a or b) else ''}"[:200])
+
+
 def run(project: Project, rep, tier: str):
     rep.explain(
         "C16 (clauses decided): `persistent_entropy` is evaluated symbolically on a generic barcode of any size under each "
@@ -311,7 +362,8 @@ def run(project: Project, rep, tier: str):
     else:
         rep.discharged("PE-PURE", fi, fi.node, "no write event reaches the diagrams passed in (infinite bars are dropped / "
                                                "capped on copies)")
-    for rname, n in (("PE-PURE", 1), ("PE-FORM", 2), ("PE-INV", 6), ("PE-GUARD", 2), ("PE-INF", 4), ("PE-LIST", 4)):
+    check_call_styles(project, rep)
+    for rname, n in (("PE-PURE", 1), ("PE-FORM", 2), ("PE-INV", 6), ("PE-GUARD", 2), ("PE-INF", 4), ("PE-LIST", 4), ("PE-STYLE", 2)):
         rep.floor(rname, n)
     for t in ("numpy.sum", "numpy.log", "numpy.where", "builtins.all", "numpy.array"):
         rep.trust(t)
